@@ -15,21 +15,277 @@ set_option linter.unusedSectionVars false
 namespace Cfr
 variable {α : Type} [Field α] [LinearOrder α] [IsStrictOrderedRing α] [Transc α]
 
+namespace Fuel
+
+/-! ## sizes -/
+
+theorem size_pos : ∀ n : Node α, 0 < n.size
+  | .term _ => by simp only [Node.size]; omega
+  | .chance _ _ => by simp only [Node.size]; omega
+  | .player _ _ _ => by simp only [Node.size]; omega
+
+/-- a child is not larger than the list of children -/
+theorem getElem?_size : ∀ (ks : List (Node α)) (k : Nat) (n : Node α),
+    ks[k]? = some n → n.size ≤ Node.sizeL ks
+  | [], k, n, h => by simp at h
+  | x :: ks, 0, n, h => by
+    simp at h; subst h; simp only [Node.sizeL]; omega
+  | x :: ks, k + 1, n, h => by
+    simp at h; have := getElem?_size ks k n h; simp only [Node.sizeL]; omega
+
+theorem mem_sizeL : ∀ (ks : List (Node α)) (k : Node α), k ∈ ks → k.size ≤ Node.sizeL ks
+  | [], k, h => by simp at h
+  | x :: ks, k, h => by
+    simp only [Node.sizeL]
+    rcases List.mem_cons.1 h with rfl | h
+    · omega
+    · have := mem_sizeL ks k h; omega
+
+/-- total size of the nodes of a list of items -/
+def tot {β : Type} (f : β → Node α) (l : List β) : Nat := (l.map (fun x => (f x).size)).sum
+
+theorem tot_nil {β : Type} (f : β → Node α) : tot f [] = 0 := rfl
+theorem tot_cons {β : Type} (f : β → Node α) (x : β) (l : List β) :
+    tot f (x :: l) = (f x).size + tot f l := by simp [tot]
+theorem tot_append {β : Type} (f : β → Node α) (a b : List β) :
+    tot f (a ++ b) = tot f a + tot f b := by simp [tot]
+
+/-- the potential of a loop state: twice the total size, plus one when a swap is due -/
+def mu {β : Type} (f : β → Node α) (queue work : List β) : Nat :=
+  2 * (tot f queue + tot f work) + (if queue.isEmpty then 1 else 0)
+
+/-- a swap (only taken when `queue` is empty and `work` is not) lowers the potential -/
+theorem mu_swap {β : Type} (f : β → Node α) (queue work : List β)
+    (hq : queue.getLast? = none) (hne : (!(queue.isEmpty && work.isEmpty)) = true) :
+    mu f work queue < mu f queue work := by
+  have hq' : queue = [] := by simpa using hq
+  subst hq'
+  cases work with
+  | nil => simp at hne
+  | cons x w => simp [mu, tot_nil]
+
+/-- popping the last item of `queue` and pushing items of smaller total size lowers the potential -/
+theorem mu_pop {β : Type} (f : β → Node α) (queue work new : List β) (it : β)
+    (hq : queue.getLast? = some it) (hnew : tot f new < (f it).size) :
+    mu f queue.dropLast (work ++ new) < mu f queue work := by
+  have hq' : queue.dropLast ++ [it] = queue := List.dropLast_append_getLast? it (by simp [hq])
+  have h1 : tot f queue = tot f queue.dropLast + (f it).size := by
+    conv_lhs => rw [← hq']
+    rw [tot_append, tot_cons, tot_nil, Nat.add_zero]
+  have h2 : queue.isEmpty = false := by
+    cases queue with
+    | nil => simp at hq
+    | cons x w => rfl
+  simp only [mu, h1, h2, tot_append]
+  split <;> simp <;> omega
+
+/-- popping the last item and pushing nothing -/
+theorem mu_pop0 {β : Type} (f : β → Node α) (queue work : List β) (it : β)
+    (hq : queue.getLast? = some it) :
+    mu f queue.dropLast work < mu f queue work := by
+  have := mu_pop f queue work [] it hq (by rw [tot_nil]; exact size_pos _)
+  simpa using this
+
+/-! ## vanilla -/
+
+theorem childItems_tot (one : Bool) (path : Path) (pc p1 p2 : α) :
+    ∀ (σ : List α) (ks : List (Node α)) (a : Nat),
+      tot VItem.node (childItems one path pc p1 p2 σ ks a) ≤ Node.sizeL ks
+  | [], _, _ => by simp [childItems, tot_nil]
+  | _ :: _, [], _ => by simp [childItems, tot_nil]
+  | s :: σ, k :: ks, a => by
+    have := childItems_tot one path pc p1 p2 σ ks (a + 1)
+    simp only [childItems, tot_cons, Node.sizeL]
+    cases one <;> simp <;> omega
+
+theorem chanceItems_tot (path : Path) (pc p1 p2 : α) :
+    ∀ (ps : List α) (ks : List (Node α)) (a : Nat),
+      tot VItem.node (chanceItems path pc p1 p2 ps ks a) ≤ Node.sizeL ks
+  | [], _, _ => by simp [chanceItems, tot_nil]
+  | _ :: _, [], _ => by simp [chanceItems, tot_nil]
+  | p :: ps, k :: ks, a => by
+    have := chanceItems_tot path pc p1 p2 ps ks (a + 1)
+    simp only [chanceItems, tot_cons, Node.sizeL]
+    omega
+
+/-- once the fuel exceeds the potential, more fuel changes nothing -/
+theorem vThreshold_extra (c : VCtx α) (target extra : Nat) :
+    ∀ (fuel : Nat) (queue work : List (VItem α)) (d : DrawSt α),
+      mu VItem.node queue work < fuel →
+      vThreshold c target (fuel + extra) queue work d = vThreshold c target fuel queue work d
+  | 0, _, _, _, h => by omega
+  | fuel + 1, queue, work, d, h => by
+    rw [show fuel + 1 + extra = (fuel + extra) + 1 by omega]
+    simp only [vThreshold]
+    split
+    next hc =>
+      have hc1 : (!(queue.isEmpty && work.isEmpty)) = true := by
+        simp only [Bool.and_eq_true] at hc; exact hc.1
+      rcases hq : queue.getLast? with _ | it
+      · dsimp only
+        exact vThreshold_extra c target extra fuel work queue d
+          (by have := mu_swap VItem.node queue work hq hc1; omega)
+      · dsimp only
+        have h0 := mu_pop0 VItem.node queue work it hq
+        rcases hn : it.node with p | ⟨i, ks⟩ | ⟨one, i, ks⟩
+        · dsimp only
+          exact vThreshold_extra c target extra fuel _ _ d (by omega)
+        · dsimp only
+          split
+          · rcases hs : sampleChance c.draw c.pass (c.ch.getD i []) i d with ⟨k, d'⟩
+            dsimp only
+            rcases hk : ks[k]? with _ | n
+            · dsimp only
+              exact vThreshold_extra c target extra fuel _ _ d' (by omega)
+            · dsimp only
+              refine vThreshold_extra c target extra fuel _ _ d' ?_
+              have := mu_pop VItem.node queue work
+                [⟨it.path ++ [k], n, it.pc * 1, it.p1, it.p2⟩] it hq (by
+                  have := getElem?_size ks k n hk
+                  rw [tot_cons, tot_nil, hn]; simp only [Node.size]; omega)
+              omega
+          · refine vThreshold_extra c target extra fuel _ _ d ?_
+            have := mu_pop VItem.node queue work
+              (chanceItems it.path it.pc it.p1 it.p2 (c.ch.getD i []) ks 0) it hq (by
+                have := chanceItems_tot it.path it.pc it.p1 it.p2 (c.ch.getD i []) ks 0
+                rw [hn]; simp only [Node.size]; omega)
+            omega
+        · dsimp only
+          refine vThreshold_extra c target extra fuel _ _ d ?_
+          have := mu_pop VItem.node queue work
+            (childItems one it.path it.pc it.p1 it.p2 (c.strat one i) ks 0) it hq (by
+              have := childItems_tot one it.path it.pc it.p1 it.p2 (c.strat one i) ks 0
+              rw [hn]; simp only [Node.size]; omega)
+          omega
+    next => rfl
+
+/-! ## external sampling -/
+
+theorem eChildren_tot (path : Path) : ∀ (ks : List (Node α)) (a : Nat),
+    tot EItem.node (eChildren path ks a) = Node.sizeL ks
+  | [], _ => by simp [eChildren, tot_nil, Node.sizeL]
+  | k :: ks, a => by
+    have := eChildren_tot path ks (a + 1)
+    simp only [eChildren, tot_cons, Node.sizeL]
+    omega
+
+/-- any two depths not smaller than the size of the node give the same result -/
+theorem eNextNodes_indep (c : ECtx α) : ∀ (f1 f2 : Nat) (n : Node α) (path : Path) (d : DrawSt α),
+    n.size ≤ f1 → n.size ≤ f2 → eNextNodes c f1 n path d = eNextNodes c f2 n path d
+  | 0, _, n, _, _, h1, _ => by have := size_pos n; omega
+  | _ + 1, 0, n, _, _, _, h2 => by have := size_pos n; omega
+  | f1 + 1, f2 + 1, n, path, d, h1, h2 => by
+    cases n with
+    | term p => simp only [eNextNodes]
+    | chance i ks =>
+      simp only [eNextNodes]
+      rcases hs : sampleChance c.draw c.chancePass (c.ch.getD i []) i d with ⟨k, d'⟩
+      dsimp only
+      rcases hk : ks[k]? with _ | n'
+      · rfl
+      · dsimp only
+        have := getElem?_size ks k n' hk
+        simp only [Node.size] at h1 h2
+        exact eNextNodes_indep c f1 f2 n' _ d' (by omega) (by omega)
+    | player one i ks =>
+      simp only [eNextNodes]
+      split
+      · rfl
+      · rcases hs : samplePlayer c.draw (if one then 1 else 2) c.playerPass (c.strat one i) i d
+          with ⟨k, d'⟩
+        dsimp only
+        rcases hk : ks[k]? with _ | n'
+        · rfl
+        · dsimp only
+          have := getElem?_size ks k n' hk
+          simp only [Node.size] at h1 h2
+          exact eNextNodes_indep c f1 f2 n' _ d' (by omega) (by omega)
+
+/-- the items `next_nodes` returns are the children of a descendant: smaller in total -/
+theorem eNextNodes_tot (c : ECtx α) : ∀ (f : Nat) (n : Node α) (path : Path) (d : DrawSt α)
+    (items : List (EItem α)) (d' : DrawSt α),
+    eNextNodes c f n path d = (some items, d') → tot EItem.node items < n.size
+  | 0, _, _, _, _, _, h => by simp [eNextNodes] at h
+  | f + 1, n, path, d, items, d', h => by
+    cases n with
+    | term p => simp [eNextNodes] at h
+    | chance i ks =>
+      simp only [eNextNodes] at h
+      rcases hs : sampleChance c.draw c.chancePass (c.ch.getD i []) i d with ⟨k, d1⟩
+      rw [hs] at h
+      dsimp only at h
+      rcases hk : ks[k]? with _ | n'
+      · rw [hk] at h; simp at h
+      · rw [hk] at h
+        dsimp only at h
+        have h1 := eNextNodes_tot c f n' _ d1 items d' h
+        have h2 := getElem?_size ks k n' hk
+        simp only [Node.size]; omega
+    | player one i ks =>
+      simp only [eNextNodes] at h
+      split at h
+      · simp only [Prod.mk.injEq, Option.some.injEq] at h
+        rw [← h.1, eChildren_tot]; simp only [Node.size]; omega
+      · rcases hs : samplePlayer c.draw (if one then 1 else 2) c.playerPass (c.strat one i) i d
+          with ⟨k, d1⟩
+        rw [hs] at h
+        dsimp only at h
+        rcases hk : ks[k]? with _ | n'
+        · rw [hk] at h; simp at h
+        · rw [hk] at h
+          dsimp only at h
+          have h1 := eNextNodes_tot c f n' _ d1 items d' h
+          have h2 := getElem?_size ks k n' hk
+          simp only [Node.size]; omega
+
+/-- once the fuel exceeds the potential, more fuel changes nothing -/
+theorem eThreshold_extra (c : ECtx α) (target depth extra : Nat) :
+    ∀ (fuel : Nat) (queue work : List (EItem α)) (d : DrawSt α),
+      mu EItem.node queue work < fuel →
+      eThreshold c target depth (fuel + extra) queue work d
+        = eThreshold c target depth fuel queue work d
+  | 0, _, _, _, h => by omega
+  | fuel + 1, queue, work, d, h => by
+    rw [show fuel + 1 + extra = (fuel + extra) + 1 by omega]
+    simp only [eThreshold]
+    split
+    next hc =>
+      have hc1 : (!(queue.isEmpty && work.isEmpty)) = true := by
+        simp only [Bool.and_eq_true] at hc; exact hc.1
+      rcases hq : queue.getLast? with _ | it
+      · dsimp only
+        exact eThreshold_extra c target depth extra fuel work queue d
+          (by have := mu_swap EItem.node queue work hq hc1; omega)
+      · dsimp only
+        rcases he : eNextNodes c depth it.node it.path d with ⟨_ | nexts, d'⟩
+        · dsimp only
+          have h0 := mu_pop0 EItem.node queue work it hq
+          exact eThreshold_extra c target depth extra fuel _ _ d' (by omega)
+        · dsimp only
+          have h0 := mu_pop EItem.node queue work nexts it hq
+            (eNextNodes_tot c depth it.node it.path d nexts d' he)
+          exact eThreshold_extra c target depth extra fuel _ _ d' (by omega)
+    next => rfl
+
+end Fuel
+
 /-- the frontier loop of the vanilla solvers -/
 theorem vThreshold_fuel_enough (g : Game α) (c : VCtx α) (target extra : Nat) (d : DrawSt α) :
     vThreshold c target (2 * g.root.size + 2 + extra) [⟨[], g.root, 1, 1, 1⟩] [] d
       = vThreshold c target (2 * g.root.size + 2) [⟨[], g.root, 1, 1, 1⟩] [] d := by
-  sorry
+  apply Fuel.vThreshold_extra
+  simp [Fuel.mu, Fuel.tot]
 
 /-- following the sampled path to the updating player's next node -/
 theorem eNextNodes_fuel_enough (c : ECtx α) (n : Node α) (path : Path) (extra : Nat) (d : DrawSt α) :
-    eNextNodes c (n.size + extra) n path d = eNextNodes c n.size n path d := by
-  sorry
+    eNextNodes c (n.size + extra) n path d = eNextNodes c n.size n path d :=
+  Fuel.eNextNodes_indep c _ _ n path d (by omega) (by omega)
 
 /-- the frontier loop of the external-sampling solver -/
 theorem eThreshold_fuel_enough (g : Game α) (c : ECtx α) (target extra : Nat) (d : DrawSt α) :
     eThreshold c target g.root.size (2 * g.root.size + 2 + extra) [⟨[], g.root⟩] [] d
       = eThreshold c target g.root.size (2 * g.root.size + 2) [⟨[], g.root⟩] [] d := by
-  sorry
+  apply Fuel.eThreshold_extra
+  simp [Fuel.mu, Fuel.tot]
 
 end Cfr
